@@ -33,6 +33,19 @@ func ValueOf(query *Query, current Map, any any) (any, error) {
 			if lazy, ok := rs.(CteEvaluation); ok {
 				return lazy()
 			}
+			// the back-reference itself read as a value (`<-` AS doc): the enclosing
+			// document is the map CTE results are written into, so a row holding it
+			// would end up inside a reference cycle. Hand out a copy, without the
+			// CTEs that have not been evaluated
+			if doc, ok := rs.(Map); ok && value == "<-" {
+				clone := make(Map, len(doc))
+				for key, entry := range doc {
+					if _, ok := entry.(CteEvaluation); !ok {
+						clone[key] = entry
+					}
+				}
+				return clone, nil
+			}
 			return rs, nil
 		}
 	case NeutalString:
